@@ -11,6 +11,7 @@ from .values import *
 from .source import Repo, ClassInfo
 
 SOLVER_TIMEOUT_MS = 20000
+SOLVER_RLIMIT = 40_000_000      # roughly what z3 spends in 20 s on this machine for the string-heavy queries (linear arithmetic queries use ~10^3..10^5)
 
 
 class Unsupported(Exception):
@@ -96,7 +97,10 @@ class Run:
         self.log = []          # [n_options, taken, feasible list, label]
         self.pc = []
         self.solver = z3.Solver()
-        self.solver.set("timeout", SOLVER_TIMEOUT_MS)
+        # budgets are RESOURCE limits (deterministic: the same query gives the same answer whatever the machine load), with a generous wall-clock
+        # net behind them; a time-dependent `unknown` would make re-executed paths diverge
+        self.solver.set("timeout", SOLVER_TIMEOUT_MS * 3)
+        self.solver.set("rlimit", SOLVER_RLIMIT)
         self.heap = {}
         self.old_heap = None
         self.old_alias = {}    # alias oid -> base oid (old-state views)
@@ -126,6 +130,8 @@ class Run:
         self.input_types = {}
         self.decided = {}
         self.decided_persist = {}
+        self.ob_occ = {}
+        self.guard_unchecked = 0
         self.guard_depth = 0
         self.nopersist = 0
         self.persistent = []   # constraints about input symbols that must survive the pop of a guarded (spec) region
@@ -152,11 +158,11 @@ class Run:
 
     def quick_feasible(self, ms=1500):
         """cheap feasibility probe: False only when z3 proves the path condition unsat within the budget"""
-        self.solver.set("timeout", ms)
+        self.solver.set("rlimit", max(1, int(SOLVER_RLIMIT * ms / SOLVER_TIMEOUT_MS)))
         try:
             return self.check() != z3.unsat
         finally:
-            self.solver.set("timeout", SOLVER_TIMEOUT_MS)
+            self.solver.set("rlimit", SOLVER_RLIMIT)
 
     def check(self, extra=None):
         import time
@@ -184,6 +190,12 @@ class Run:
     def choose(self, options, label="", persist=False):
         """options: list of (tag, cond or None). Returns index of the option taken on this path."""
         conds = [z3.BoolVal(True) if c is None else simp(c) for _t, c in options]
+        if self.guard_depth > 0 and self.guard_unchecked:
+            # first decision inside a guarded region whose guard has not been looked at yet: an infeasible guard means nothing is decided (or
+            # consumed from the forced prefix) here -- exactly as if the region had been skipped
+            self.guard_unchecked = 0
+            if self.check() == z3.unsat:
+                raise PathEnd()
         pos = len(self.log)
         if self.guard_depth > 0 and not self.nopersist:
             # a decision taken while evaluating a guarded specification sub-expression holds for the whole path (both
@@ -285,6 +297,8 @@ def next_forced(log):
     i = len(log) - 1
     while i >= 0:
         n, k, feas, _ = log[i]
+        if len(feas) != n:
+            raise Unsupported("re-execution diverged (a forced decision met a different choice point): the engine must be deterministic")
         for j in range(k + 1, n):
             if feas[j]:
                 return [(e[1], e[2]) for e in log[:i]] + [(j, feas)]
